@@ -216,17 +216,6 @@ theorem dfc_sub (sw : String) : ∀ (cs : Cases) (n : String), n ∈ dfCases cs 
     · exact .inr (dfc_sub sw r n h)
 end
 
-/-- the user labels defined in the program -/
-def allDefs (p : Program) : List String := p.routines.flatMap fun r => dfStmts r.body
-
-/-- programs of the fragment: no macros, routines numbered 0, 1, 2, … in source order, bodies in the fragment; every user label
-is defined once, and every label mentioned (`jump`, `call`) is defined -/
-def CgProg (lv : Nat) (p : Program) : Prop :=
-  p.macros = [] ∧ seqFrom p.routines 0 = true ∧ (∀ r ∈ p.routines, cgStmts lv r.body = true) ∧ (allDefs p).Nodup ∧
-  ∀ r ∈ p.routines, ∀ n ∈ mlStmts r.body, n ∈ allDefs p
-
-instance (lv : Nat) (p : Program) : Decidable (CgProg lv p) := by unfold CgProg; infer_instance
-
 theorem frontGuard_of_cg (lv : Nat) (p : Program) (h : CgProg lv p) : FrontGuard p := by
   obtain ⟨hm, _, hall, hnd, _⟩ := h
   exact ⟨⟨by rw [hm]; simp, fun r hr => (cg_stmts_facts lv r.body (hall r hr)).ok⟩, by rw [hm]; simp,
